@@ -10,7 +10,8 @@ flow is normalised away:
 * `if not c: A else: B`  ==  `if c: B else: A`;   `not (a is None)` == `a is not None` etc.;
 * a `for` over a literal tuple/list (of names, attributes, constants or tuples of those) is
   unrolled, the loop variables substituted (`for mine, theirs in ((self.R, up.R), ...)`);
-* `a, b = x, y` is split into two assignments;
+* `a, b = x, y` is split into two store effects that share their statement (`.node`): a consumer
+  that replays effects must treat the stores of one statement as simultaneous;
 * single-assignment temporaries in targets, values and conditions are inlined
   (model.inline_temporaries).
 
